@@ -274,10 +274,23 @@ func firstLine(s string) string {
 }
 
 func clipV(xs []string) string {
-	if len(xs) > 5 {
-		return fmt.Sprintf("%v… (%d)", xs[:5], len(xs))
+	short := func(x string) string {
+		if len(x) > 120 {
+			return fmt.Sprintf("%s…(%d bytes)", x[:100], len(x))
+		}
+		return x
 	}
-	return fmt.Sprint(xs)
+	var ys []string
+	for i, x := range xs {
+		if i == 5 {
+			break
+		}
+		ys = append(ys, short(x))
+	}
+	if len(xs) > 5 {
+		return fmt.Sprintf("%v… (%d)", ys, len(xs))
+	}
+	return fmt.Sprint(ys)
 }
 
 func progShape(p string) string {
@@ -387,6 +400,38 @@ func c04RunAll(c *Ctx, cases []*encCase) {
 	for _, r := range reps {
 		r.emit(c)
 	}
+}
+
+// c04Big crosses the byte-buffer thresholds of every reader's batching: values of several KiB up
+// to more than 512 KiB (zbuf.PullerBatchBytes: the generic batch of the ZSON/ZJSON/VNG readers
+// holds copies of its values in one 512 KiB buffer and clones the value that does not fit; zngio
+// builds its own batches per frame), several MiB in total, with programs whose operators keep
+// their input batches across pulls (sort, tail, collect, fuse).  A value that does not own its
+// bytes until its batch is released shows up as a difference between the text and the binary
+// presentation.
+func c04Big(c *Ctx) {
+	progs := []string{"sort k", "sort k | head 20", "sort -r k | yield {k,n:len(s)}", "tail 3", "sort k | tail 7 | yield {k,n:len(s)}",
+		"collect(s) | yield len(collect)", "fuse | sort k | head 5", "sort s | head 3 | yield k", "count() by s | sort this | yield count", "pass"}
+	sizes := [][]int{{4096}, {40 << 10}, {6000, 300, 90 << 10}, {600 << 10, 1000}, {5200}, {128 << 10, 17}}
+	n := c.N(6, 18)
+	var cases []*encCase
+	for i := 0; i < n; i++ {
+		sz := sizes[i%len(sizes)]
+		count := 24 + c.Rng.Intn(40)
+		if sz[0] > 512<<10 {
+			count = 6 + c.Rng.Intn(5)
+		}
+		var vals []string
+		for j := 0; j < count; j++ {
+			k := c.Rng.Intn(1000)
+			ln := sz[j%len(sz)] + c.Rng.Intn(64)
+			ch := string(rune('a' + j%26))
+			vals = append(vals, fmt.Sprintf(`{k:%d,j:%d,s:"%s%d"}`, k, j, strings.Repeat(ch, ln), j))
+		}
+		encs := []encCfg{{Format: "zjson"}, {Format: "zng", Compress: true, Threads: 1}, {Format: "zng", Thresh: 1, Threads: 4}, {Format: "vng"}}
+		cases = append(cases, &encCase{Check: "big", Prog: progs[i%len(progs)], Values: vals, Encs: encs})
+	}
+	c04RunAll(c, cases)
 }
 
 // c04Alias provokes buffer recycling: many values, tiny frames, many threads, values held by
